@@ -10,6 +10,10 @@
 (*                           KEEP the stale entry); not cached -> read and *)
 (*                           insert                                         *)
 (*   Database::reset():  zones.write() { names.write() { clear }; clear }  *)
+(*   Database::available(): names.write(): re-read the names from the file *)
+(*                          if THEIR ttl expired (an unreadable file keeps *)
+(*                          the old names but restarts the ttl), return    *)
+(*                          them                                           *)
 (*   environment:        RewriteFile (new mtime; any zones added, removed  *)
 (*                       or replaced), RemoveFile, Tick                     *)
 (*                                                                         *)
@@ -27,13 +31,15 @@ VARIABLES
   cache,     \* [Name -> [ver, mt, exp]]  ver = 0: not cached
   clock, nextVer,
   zlW, zlR,  \* zones lock
-  nlW,       \* names lock (taken inside reset only)
+  nlW,       \* names lock (taken inside reset and available)
+  names,     \* SUBSET Name   the cached list of names (used by available() only)
+  namesExp,  \* clock value after which that list is expired (-1 = expired)
   pc, arg, ret,
   ops,
   seen,      \* ghost: versions the queried zone had in the file while the lookup ran
   how        \* ghost: which path produced the result
 
-vars == <<file, cache, clock, nextVer, zlW, zlR, nlW, pc, arg, ret, ops, seen, how>>
+vars == <<file, cache, clock, nextVer, zlW, zlR, nlW, names, namesExp, pc, arg, ret, ops, seen, how>>
 
 None == "none"
 NotCached == [ver |-> 0, mt |-> 0, exp |-> -1]
@@ -45,6 +51,7 @@ Init ==
   /\ cache = [n \in Name |-> NotCached]
   /\ clock = 0 /\ nextVer = 2
   /\ zlW = None /\ zlR = {} /\ nlW = None
+  /\ names = {n \in Name : VerOf(file, n) > 0} /\ namesExp = TTL
   /\ pc = [t \in Thread |-> "idle"] /\ arg = [t \in Thread |-> CHOOSE n \in Name : TRUE]
   /\ ret = [t \in Thread |-> 0] /\ ops = 0
   /\ seen = [t \in Thread |-> {}] /\ how = [t \in Thread |-> "none"]
@@ -57,7 +64,7 @@ Start(t, n) ==
   /\ pc' = [pc EXCEPT ![t] = "fast"] /\ arg' = [arg EXCEPT ![t] = n]
   /\ seen' = [seen EXCEPT ![t] = {VerOf(file, n)}] /\ how' = [how EXCEPT ![t] = "none"]
   /\ ops' = ops + 1
-  /\ UNCHANGED <<file, cache, clock, nextVer, zlW, zlR, nlW, ret>>
+  /\ UNCHANGED <<file, cache, clock, nextVer, zlW, zlR, nlW, ret, names, namesExp>>
 
 Fast(t) ==
   /\ pc[t] = "fast" /\ CanRead(zlW)
@@ -65,7 +72,7 @@ Fast(t) ==
      IF c.ver > 0 /\ ~Expired(c.exp)
      THEN /\ ret' = [ret EXCEPT ![t] = c.ver] /\ pc' = [pc EXCEPT ![t] = "done"] /\ how' = [how EXCEPT ![t] = "fast"]
      ELSE /\ pc' = [pc EXCEPT ![t] = "slow"] /\ UNCHANGED <<ret, how>>
-  /\ UNCHANGED <<file, cache, clock, nextVer, zlW, zlR, nlW, arg, ops, seen>>
+  /\ UNCHANGED <<file, cache, clock, nextVer, zlW, zlR, nlW, arg, ops, seen, names, namesExp>>
 
 \* `f` is the file as the critical section sees it (the trace spec lets it be
 \* any state the file had while the section was running)
@@ -81,26 +88,39 @@ SlowWith(t, f) ==
      ELSE /\ UNCHANGED cache
           /\ ret' = [ret EXCEPT ![t] = 0] /\ how' = [how EXCEPT ![t] = "gone"]
   /\ pc' = [pc EXCEPT ![t] = "done"]
-  /\ UNCHANGED <<file, clock, nextVer, zlW, zlR, nlW, arg, ops, seen>>
+  /\ UNCHANGED <<file, clock, nextVer, zlW, zlR, nlW, arg, ops, seen, names, namesExp>>
 Slow(t) == SlowWith(t, file)
 
 Finish(t) ==
   /\ pc[t] = "done" /\ pc' = [pc EXCEPT ![t] = "idle"]
-  /\ UNCHANGED <<file, cache, clock, nextVer, zlW, zlR, nlW, arg, ret, ops, seen, how>>
+  /\ UNCHANGED <<file, cache, clock, nextVer, zlW, zlR, nlW, arg, ret, ops, seen, how, names, namesExp>>
 
 ResetStart(t) ==
   /\ pc[t] = "idle" /\ ops < MaxOps /\ CanWrite(zlW, zlR)
   /\ zlW' = t /\ pc' = [pc EXCEPT ![t] = "reset_names"] /\ ops' = ops + 1
-  /\ UNCHANGED <<file, cache, clock, nextVer, zlR, nlW, arg, ret, seen, how>>
+  /\ UNCHANGED <<file, cache, clock, nextVer, zlR, nlW, arg, ret, seen, how, names, namesExp>>
 ResetNames(t) ==
   /\ pc[t] = "reset_names" /\ nlW = None
+  /\ names' = {} /\ namesExp' = -1
   /\ pc' = [pc EXCEPT ![t] = "reset_zones"]
   /\ UNCHANGED <<file, cache, clock, nextVer, zlW, zlR, nlW, arg, ret, ops, seen, how>>
 ResetZones(t) ==
   /\ pc[t] = "reset_zones"
   /\ cache' = [n \in Name |-> NotCached]
   /\ zlW' = None /\ pc' = [pc EXCEPT ![t] = "idle"]
-  /\ UNCHANGED <<file, clock, nextVer, zlR, nlW, arg, ret, ops, seen, how>>
+  /\ UNCHANGED <<file, clock, nextVer, zlR, nlW, arg, ret, ops, seen, how, names, namesExp>>
+
+\* ---- Database::available: one critical section under the names write lock -------------------
+\* `f` as in SlowWith; the result is the list after the section (names')
+NamesIn(f) == {n \in Name : VerOf(f, n) > 0}
+AvailWith(t, f) ==
+  /\ pc[t] = "idle" /\ ops < MaxOps /\ nlW = None
+  /\ LET refresh == Expired(namesExp) IN
+     /\ names' = IF refresh /\ f.mt > 0 THEN NamesIn(f) ELSE names
+     /\ namesExp' = IF refresh THEN clock + TTL ELSE namesExp
+  /\ ops' = ops + 1
+  /\ UNCHANGED <<file, cache, clock, nextVer, zlW, zlR, nlW, pc, arg, ret, seen, how>>
+Avail(t) == AvailWith(t, file)
 
 \* ---- environment: the file is rewritten as a whole -----------------------------------------
 Note(f) == [t \in Thread |-> IF pc[t] # "idle" THEN seen[t] \cup {VerOf(f, arg[t])} ELSE seen[t]]
@@ -112,19 +132,19 @@ RewriteFile(changed) ==          \* changed : [Name -> {"keep", "new", "drop"}]
          f == [mt |-> nextVer, z |-> zz]
      IN file' = f /\ seen' = Note(f)
   /\ nextVer' = nextVer + 1
-  /\ UNCHANGED <<cache, clock, zlW, zlR, nlW, pc, arg, ret, ops, how>>
+  /\ UNCHANGED <<cache, clock, zlW, zlR, nlW, pc, arg, ret, ops, how, names, namesExp>>
 RemoveFile ==
   /\ file.mt > 0
   /\ LET f == [mt |-> 0, z |-> [n \in Name |-> 0]] IN file' = f /\ seen' = Note(f)
-  /\ UNCHANGED <<cache, clock, nextVer, zlW, zlR, nlW, pc, arg, ret, ops, how>>
+  /\ UNCHANGED <<cache, clock, nextVer, zlW, zlR, nlW, pc, arg, ret, ops, how, names, namesExp>>
 Tick ==
   /\ clock < MaxClock /\ clock' = clock + 1
-  /\ UNCHANGED <<file, cache, nextVer, zlW, zlR, nlW, pc, arg, ret, ops, seen, how>>
+  /\ UNCHANGED <<file, cache, nextVer, zlW, zlR, nlW, pc, arg, ret, ops, seen, how, names, namesExp>>
 
 Next ==
   \/ \E t \in Thread : \/ \E n \in Name : Start(t, n)
                        \/ Fast(t) \/ Slow(t) \/ Finish(t)
-                       \/ ResetStart(t) \/ ResetNames(t) \/ ResetZones(t)
+                       \/ ResetStart(t) \/ ResetNames(t) \/ ResetZones(t) \/ Avail(t)
   \/ \E ch \in [Name -> {"keep", "new", "drop"}] : RewriteFile(ch)
   \/ RemoveFile
   \/ Tick
